@@ -11,7 +11,8 @@ from phyclone.utils.dev import clear_proposal_dist_caches
 
 ID = "C04"
 LEVEL = "proof"
-THEOREMS = ["gibbs_block_invariant", "sweep_invariant"]
+THEOREMS = ["gibbs_block_invariant", "sweep_invariant", "categorical_gibbs_reversible", "dpStep_invariant",
+            "dataPointMove_invariant", "pruneRegraft_invariant", "move_sequence_invariant"]
 BUDGET = {"quick": 170, "thorough": 1500}
 RULE = ("moves = data-point Gibbs scan, prune-regraft, random-subtree particle Gibbs, all built by run.setup_samplers; "
         "configurations = (data set of 2..3 points (4 sampled in thorough), alpha, outlier modelling off/on, and for the subtree "
